@@ -315,7 +315,10 @@ def sampled_start_insts(flat):
     return out
 
 
-def simulate(flat: Flat, emulate_stale=False, emulate_sampled_start=False, preset=None, ref_invalid_notify=True) -> ModelRun:
+def simulate(flat: Flat, emulate_stale=False, emulate_sampled_start=False, preset=None, ref_invalid_notify=True,
+             captured=()) -> ModelRun:
+    """captured: uids whose evaluation errors are captured (exception_time_series): a planned eval fault abandons that one
+    evaluation (no output, no state change, no new requests), the run continues and pending wake-ups stay pending."""
     case = flat.case
     start, end = case.start, case.end
     insts = flat.insts
@@ -545,13 +548,22 @@ def simulate(flat: Flat, emulate_stale=False, emulate_sampled_start=False, prese
                 R.stats["timer_and_input"] = R.stats.get("timer_and_input", 0) + 1
             if ready:
                 ran = True
-                if fault(i.uid, "eval"):
+                thrown = fault(i.uid, "eval")
+                if thrown and i.uid not in captured:
                     R.terminated_by = (i.uid, "eval", t)
                     R.runs[(i.uid, t)] = ("THROW", ins_snap)
                     return R
                 vals = [x[3] for x in ins_snap]
                 op = i.op
-                if op == "src":
+                if thrown:
+                    R.runs[(i.uid, t)] = ("THROW", ins_snap)
+                    R.stats["captured_throws"] = R.stats.get("captured_throws", 0) + 1
+                    if s.sched is not None and s.sched.events and not pending_due:
+                        R.stats["captured_throw_with_pending_timer"] = R.stats.get("captured_throw_with_pending_timer", 0) + 1
+                    op = "THROWN"
+                if op == "THROWN":
+                    pass
+                elif op == "src":
                     sc = case.scripts.get(i.uid, [])
                     if s.pos < len(sc) and script_at(i, s, s.pos)[0] == t:
                         out = script_at(i, s, s.pos)[1]
@@ -605,7 +617,8 @@ def simulate(flat: Flat, emulate_stale=False, emulate_sampled_start=False, prese
                     out %= WRAP
                 if op == "acc":
                     s.st = out
-                R.runs[(i.uid, t)] = (out, ins_snap)
+                if not thrown:
+                    R.runs[(i.uid, t)] = (out, ins_snap)
                 if slot_due and not pending_due and not active_tick:
                     R.stale.append((i.uid, t))
 
